@@ -67,6 +67,7 @@ CHECKS = {
 }
 
 def main():
+    DEV_PROFILE_TOO = {"C01", "C02", "C03", "C04", "C05", "C07", "C08", "C09", "C10", "C14", "C15", "C16", "C19"}  # = DEBUG_RERUN of ./check
     checks = []
     for pid in sorted(CHECKS):
         c = CHECKS[pid]
@@ -79,7 +80,7 @@ def main():
             engine=c.get("engine", "lmverif"),
             level_claimed=dict(category="exploration", text=c["text"], design_ref=c["ref"]),
             level_note=c["note"],
-            technique=c["tech"],
+            technique=c["tech"] + ("; run on the release build and (1/10 of the cases) on the dev-profile build with overflow checks and debug assertions, in both tiers" if pid in DEV_PROFILE_TOO and "dev-profile build" not in c["tech"] else ""),
         ))
     props = [json.loads(l)["id"] for l in open(os.path.join(V, "properties.jsonl"))]
     na = []
